@@ -81,10 +81,19 @@ func startWatchdog() {
 	limit := time.Duration(envInt("VERIF_WATCHDOG", 120)) * time.Second
 	watchdogBeat.Store(time.Now().UnixNano())
 	go func() {
+		lastProgress, lastChange := simrt.Progress.Load(), time.Now()
 		for {
 			time.Sleep(2 * time.Second)
-			if time.Since(time.Unix(0, watchdogBeat.Load())) > limit {
-				buf := make([]byte, 1<<20)
+			// progress = a new run started, or the scheduler of the current
+			// run made a step: a long run on a loaded machine is not a stall
+			if p := simrt.Progress.Load(); p != lastProgress {
+				lastProgress, lastChange = p, time.Now()
+			}
+			if b := time.Unix(0, watchdogBeat.Load()); b.After(lastChange) {
+				lastChange = b
+			}
+			if time.Since(lastChange) > limit {
+				buf := make([]byte, 4<<20)
 				n := runtime.Stack(buf, true)
 				fmt.Fprintf(os.Stderr, "WATCHDOG: run made no progress for %v\n%s\n", limit, buf[:n])
 				os.Exit(3)
